@@ -134,6 +134,33 @@ def fence_corpus(maxlines=4):
     return out
 
 
+def label_corpus(maxlead=4):
+    """diagnostics located by a metadata key or value: a front matter whose offending key sits behind 0..maxlead lines that
+    end in 1/2/3/4-byte characters, with both line endings (the key is found by walking the YAML text line by line), and
+    values of every checked key made of blanks only / padded with blanks (the label is the trimmed value)"""
+    import itertools
+    out = []
+    leads = ["k: v\n", "t: \u00e9\n", "u: \u20ac\n", "w: \U0001F600\n"]
+    keyed = ["time: soon\n", "servings: many\n", "prep time: 1 m\ntime: 2 m\n", "cook time: 1 m\ntime: 2 m\n", "locale: nowhere_\n",
+             "time: 1 m\nprep time: 2 m\ncook time: 3 m\n"]
+    for n in range(0, maxlead + 1):
+        for ls in itertools.product(leads, repeat=n):
+            for k in keyed:
+                t = "---\n" + "".join(ls) + k + "---\nstep\n"
+                out.append(dict(text=t, src="labels"))
+                out.append(dict(text=t.replace("\n", "\r\n"), src="labels"))
+    blanks = ["", " ", "  ", "\t", " \t ", "\u3000", "\u00a0 ", " x", "x ", " x  ", " \u00e9 "]
+    for key in ["servings", "time", "prep time", "cook time", "locale", "tags", "author", "source", "[mode]", "[duplicate]", "[define]",
+                "[auto scale]", "title", "k"]:
+        for v in blanks:
+            for tail in ["\n", "", "\r\n", "\n@a\n"]:
+                out.append(dict(text=f">> {key}:{v}{tail}", src="labels"))
+                out.append(dict(text=f"@b\n>> {key}:{v}{tail}", src="labels"))
+                if not key.startswith("["):
+                    out.append(dict(text=f"---\n{key}:{v}\n---{tail}", src="labels"))
+    return out
+
+
 REPEATABLE = [">> k%d: v\n", "@a{%d}\n\n", "@&a{%d}\n", "= s%d\n", "@a%d @b ", "> t%d\n\n", "-- c%d\n", "[- c%d -] ",
               "@a{%d%%kg}(n) ", "~t{%d%%min} ", "#p%d{} ", "\\%d", "@&(~%d)x{} \n\n", ">> time: %dm\n", "@x|y%d{} ",
               ">> [mode]: steps\n@q%d\n", "%d ºC ", "@a{%d-9}", "k%d: v\n"]
@@ -183,6 +210,7 @@ def _corpus(ctx, want_fences=False):
     recs += repetition_corpus()
     if want_fences:
         recs += fence_corpus(3 if quick else 4)
+        recs += label_corpus(4 if quick else 5)
     return recs
 
 
@@ -201,7 +229,8 @@ def _common_evidence(ctx, recs, obs, what):
                 "punctuation, 2/3/4-byte characters) up to the configured length, enumerated by TLC as the finished "
                 "behaviours of MC_Lexer (BFS, exhaustive) together with the token stream CookLexer predicts; the "
                 "repository's canonical sources and bench recipes; seeded random splices/mutations of those and of a "
-                "fragment pool; " + what + ". Each input runs under Extensions::empty() and all(). "
+                "fragment pool; metadata with located diagnostics (offending keys of a front matter behind 0..4 lines ending in "
+                "1..4-byte characters, LF and CRLF; blank-only and padded values of every checked key); " + what + ". Each input runs under Extensions::empty() and all(). "
                 "non-trivial = distinct inputs of at least two characters")
     for x in obs[1000:1003] + obs[-2:]:
         ctx.sample(dict(input=syms_text(x["input"])[:200], ext=x["ext"], events=x["evk"][:12], tokens=len(x["toks"])))
